@@ -1,5 +1,6 @@
 import Mouette.Lemmas.CutSourceBridge2
 import Mouette.Lemmas.CuttingMap
+import Mouette.Lemmas.CuttingBuild
 /-!
 Bridges for the stages of `_build_mesh_with_cuts` translated in round 5 (`Generated/C16Cut.lean`): the find loop, the
 renumbering loop and the `order_verts` loop compute the model's `findFaces`, `mapFaces`, `orderVerts`. Core Lean only.
@@ -185,5 +186,164 @@ theorem orderLoop_bridge {m : List (Nat × Nat)} (w : WFMap m) (cv : List Nat) :
         simp [hu] at this
   · rw [List.getElem?_eq_none (by rw [orderLoop_length]; omega),
       List.getElem?_eq_none (by rw [orderVerts_length]; omega)]
+
+/-! ### `duplicate_vertices` / `ref_vertex` (round 6) -/
+
+theorem findAll_append : ∀ (a b : List Nat) (s : UF.State),
+    findAll s (a ++ b) = (match findAll s a with
+      | none => none
+      | some (s1, ra) => match findAll s1 b with
+        | none => none
+        | some (s2, rb) => some (s2, ra ++ rb))
+  | [], b, s => by
+    simp only [List.nil_append, findAll]
+    cases findAll s b with
+    | none => rfl
+    | some r => obtain ⟨s2, rb⟩ := r; rfl
+  | x :: a, b, s => by
+    simp only [List.cons_append]
+    rw [findAll, findAll]
+    cases hx : UF.find s x with
+    | none => rfl
+    | some r =>
+      obtain ⟨s1, r1⟩ := r
+      simp only []
+      rw [findAll_append a b s1]
+      cases findAll s1 a with
+      | none => rfl
+      | some r2 =>
+        obtain ⟨s2, ra⟩ := r2
+        simp only []
+        cases findAll s2 b with
+        | none => rfl
+        | some r3 => obtain ⟨s3, rb⟩ := r3; rfl
+
+/-- the writes for the corners of ONE vertex `v` -/
+theorem refWrites_const (m : List (Nat × Nat)) (cv : List Nat) (v : Nat) : ∀ (cs rs : List Nat),
+    (∀ c, c ∈ cs → cv.getD c 0 = v) → rs.length = cs.length →
+    refWrites m cs rs cv = (mapFace m rs).map (fun ks => ks.map (fun k => (k, v)))
+  | [], [], _, _ => rfl
+  | [], _ :: _, _, h => by simp at h
+  | _ :: _, [], _, h => by simp at h
+  | c :: cs, r :: rs, hc, hl => by
+    have ih := refWrites_const m cv v cs rs (fun x hx => hc x (List.mem_cons_of_mem _ hx)) (by simpa using hl)
+    rw [refWrites, mapFace, ih, hc c List.mem_cons_self]
+    cases m.lookup r with
+    | none => rfl
+    | some k =>
+      cases mapFace m rs with
+      | none => rfl
+      | some l => rfl
+
+theorem refWrites_append (m : List (Nat × Nat)) (cv : List Nat) : ∀ (a ra b rb : List Nat), ra.length = a.length →
+    refWrites m (a ++ b) (ra ++ rb) cv = (match refWrites m a ra cv, refWrites m b rb cv with
+      | some x, some y => some (x ++ y)
+      | _, _ => none)
+  | [], [], b, rb, _ => by
+    simp only [List.nil_append, refWrites]
+    cases refWrites m b rb cv <;> rfl
+  | [], _ :: _, _, _, h => by simp at h
+  | _ :: _, [], _, _, h => by simp at h
+  | c :: a, r :: ra, b, rb, h => by
+    have ih := refWrites_append m cv a ra b rb (by simpa using h)
+    simp only [List.cons_append]
+    rw [refWrites, refWrites, ih]
+    cases m.lookup r with
+    | none => rfl
+    | some k =>
+      cases refWrites m a ra cv with
+      | none => rfl
+      | some x =>
+        cases refWrites m b rb cv with
+        | none => rfl
+        | some y => rfl
+
+theorem foldl_dupStep_none (m : List (Nat × Nat)) (dup : Nat → List Nat) : ∀ l : List Nat,
+    l.foldl (C16.dupStep m dup) none = none
+  | [] => rfl
+  | _ :: l => by rw [List.foldl_cons]; exact foldl_dupStep_none m dup l
+
+theorem refLoop_snoc (out : List (Nat × List Nat)) (v : Nat) (ks : List Nat) :
+    C16.refLoop (out ++ [(v, ks)]) = C16.refLoop out ++ ks.map (fun k => (k, v)) := by
+  unfold C16.refLoop
+  rw [List.foldl_append, List.foldl_cons, List.foldl_nil]
+  generalize out.foldl (fun ws p => p.2.foldl (fun ws x2 => ws ++ [(x2, p.1)]) ws) [] = W
+  simp only []
+  induction ks generalizing W with
+  | nil => simp
+  | cons k ks ih => rw [List.foldl_cons, ih]; simp
+
+/-- the two bookkeeping loops as written = the model's second round of `find` over all corners grouped by vertex, followed
+by `refWrites` -/
+theorem foldl_dupStep (m : List (Nat × Nat)) (cv : List Nat) : ∀ (L : List Nat) (s : UF.State) (out : List (Nat × List Nat)),
+    (L.foldl (C16.dupStep m (cornersOf cv)) (some (s, out))).map (fun r => (r.1, C16.refLoop r.2)) =
+      (match findAll s (L.flatMap (cornersOf cv)) with
+        | none => none
+        | some (s', rs) => match refWrites m (L.flatMap (cornersOf cv)) rs cv with
+          | none => none
+          | some ws => some (s', C16.refLoop out ++ ws))
+  | [], s, out => by simp [findAll, refWrites]
+  | v :: L, s, out => by
+    rw [List.foldl_cons, List.flatMap_cons, findAll_append]
+    have hstep : C16.dupStep m (cornersOf cv) (some (s, out)) v =
+        (match findAll s (cornersOf cv v) with
+          | none => none
+          | some (uf, rs) => match mapFace m rs with
+            | none => none
+            | some ks => some (uf, out ++ [(v, ks)])) := rfl
+    rw [hstep]
+    cases h1 : findAll s (cornersOf cv v) with
+    | none => simp only []; rw [foldl_dupStep_none]; rfl
+    | some r =>
+      obtain ⟨s1, r1⟩ := r
+      have hlen := findAll_length _ _ _ _ h1
+      have hconst := refWrites_const m cv v (cornersOf cv v) r1 (fun c hc => (mem_cornersOf.mp hc).2) hlen
+      simp only []
+      cases h2 : mapFace m r1 with
+      | none =>
+        simp only []
+        rw [foldl_dupStep_none]
+        cases findAll s1 (L.flatMap (cornersOf cv)) with
+        | none => rfl
+        | some r3 =>
+          obtain ⟨s2, r2⟩ := r3
+          simp only []
+          rw [refWrites_append m cv _ _ _ _ hlen, hconst, h2]
+          rfl
+      | some ks =>
+        simp only []
+        rw [foldl_dupStep m cv L s1 (out ++ [(v, ks)])]
+        cases findAll s1 (L.flatMap (cornersOf cv)) with
+        | none => rfl
+        | some r3 =>
+          obtain ⟨s2, r2⟩ := r3
+          simp only []
+          rw [refWrites_append m cv _ _ _ _ hlen, hconst, h2, refLoop_snoc]
+          simp only [Option.map_some]
+          cases refWrites m (L.flatMap (cornersOf cv)) r2 cv with
+          | none => rfl
+          | some y => simp [List.append_assoc]
+
+theorem dupLoop_bridge (m : List (Nat × Nat)) (cv : List Nat) (s : UF.State) (nV : Nat) :
+    (C16.dupLoop s m (cornersOf cv) nV).map (fun r => C16.refLoop r.2) =
+      (match findAll s ((List.range nV).flatMap (cornersOf cv)) with
+        | none => none
+        | some (_, rs) => refWrites m ((List.range nV).flatMap (cornersOf cv)) rs cv) := by
+  have h := foldl_dupStep m cv (List.range nV) s []
+  unfold C16.dupLoop idRange
+  have h' := congrArg (Option.map Prod.snd) h
+  rw [Option.map_map] at h'
+  have e : (Prod.snd ∘ fun r : UF.State × List (Nat × List Nat) => (r.1, C16.refLoop r.2)) =
+      (fun r => C16.refLoop r.2) := rfl
+  rw [e] at h'
+  rw [h']
+  cases findAll s ((List.range nV).flatMap (cornersOf cv)) with
+  | none => rfl
+  | some r =>
+    obtain ⟨s', rs⟩ := r
+    simp only []
+    cases refWrites m ((List.range nV).flatMap (cornersOf cv)) rs cv with
+    | none => rfl
+    | some ws => simp [C16.refLoop]
 
 end Mouette.CutSrc
